@@ -206,12 +206,13 @@ def jobs_for(prop, tier):
     # explored schedules of the real sync cache (E2); the postlude of every schedule
     # checks structure, counters, drops, final state and the sequential refill
     b = 3 if thorough else 2
+    loom = [{"id": "loom-atomic-instant", "argv": ["all"], "bin": "loom"}]
     if prop == "C02":
-        j = sched("c02", tier, b, 16) + sched("c07", tier, b, 2) + sched("c16", tier, b, 2)
+        j = sched("c02", tier, b, 16) + sched("c07", tier, b, 2) + sched("c16", tier, b, 2) + loom
     elif prop == "C09":
         j = sched("c09", tier, 2 if thorough else 1, 8, 20000) + sched("c02", tier, 2, 16) + sched("c07", tier, 2, 2)
     elif prop == "C07":
-        j = j + sched("c07", tier, b, 4)
+        j = j + sched("c07", tier, b, 4) + loom
     elif prop == "C16":
         j = j + sched("c16", tier, b, 3)
     elif prop == "C04":
